@@ -22,7 +22,7 @@ func matchField(doc types.Value, exists bool, filter types.Value) (bool, error) 
 	for k, value := range f.Range() {
 		key, ok := k.(types.String)
 		if !ok {
-			return false, errors.WithMessagef(ErrUnsupportedType, "key: %v", k.Interface())
+			return false, errors.WithMessagef(ErrUnsupportedType, "key: %v", types.InterfaceOf(k))
 		}
 
 		if !strings.HasPrefix(key.String(), "$") {
@@ -75,7 +75,7 @@ func matchField(doc types.Value, exists bool, filter types.Value) (bool, error) 
 		case "$and":
 			vals, ok := value.(types.Slice)
 			if !ok {
-				return false, errors.WithMessagef(ErrUnsupportedType, "value: %v", value.Interface())
+				return false, errors.WithMessagef(ErrUnsupportedType, "value: %v", types.InterfaceOf(value))
 			}
 			for _, sub := range vals.Range() {
 				match, err := matchField(doc, exists, sub)
@@ -89,7 +89,7 @@ func matchField(doc types.Value, exists bool, filter types.Value) (bool, error) 
 		case "$or":
 			vals, ok := value.(types.Slice)
 			if !ok {
-				return false, errors.WithMessagef(ErrUnsupportedType, "value: %v", value.Interface())
+				return false, errors.WithMessagef(ErrUnsupportedType, "value: %v", types.InterfaceOf(value))
 			}
 			any := false
 			for _, sub := range vals.Range() {
@@ -122,7 +122,7 @@ func validate(filter types.Value) error {
 	for k, value := range f.Range() {
 		key, ok := k.(types.String)
 		if !ok {
-			return errors.WithMessagef(ErrUnsupportedType, "key: %v", k.Interface())
+			return errors.WithMessagef(ErrUnsupportedType, "key: %v", types.InterfaceOf(k))
 		}
 
 		if !strings.HasPrefix(key.String(), "$") {
@@ -156,14 +156,14 @@ func patch(doc, update types.Map) (types.Map, error) {
 	for k, value := range update.Range() {
 		key, ok := k.(types.String)
 		if !ok {
-			return nil, errors.WithMessagef(ErrUnsupportedType, "key: %v", k.Interface())
+			return nil, errors.WithMessagef(ErrUnsupportedType, "key: %v", types.InterfaceOf(k))
 		}
 
 		switch key.String() {
 		case "$set":
 			val, ok := value.(types.Map)
 			if !ok {
-				return nil, errors.WithMessagef(ErrUnsupportedType, "value: %v", value.Interface())
+				return nil, errors.WithMessagef(ErrUnsupportedType, "value: %v", types.InterfaceOf(value))
 			}
 			for k, v := range val.Range() {
 				doc.Set(k, v)
@@ -171,7 +171,7 @@ func patch(doc, update types.Map) (types.Map, error) {
 		case "$unset":
 			val, ok := value.(types.Map)
 			if !ok {
-				return nil, errors.WithMessagef(ErrUnsupportedType, "value: %v", value.Interface())
+				return nil, errors.WithMessagef(ErrUnsupportedType, "value: %v", types.InterfaceOf(value))
 			}
 			for k := range val.Range() {
 				doc.Delete(k)
@@ -284,7 +284,7 @@ func extract(filter types.Value) (types.Value, error) {
 		case "$and", "$or":
 			vals, ok := value.(types.Slice)
 			if !ok {
-				return nil, errors.WithMessagef(ErrUnsupportedType, "value: %v", value.Interface())
+				return nil, errors.WithMessagef(ErrUnsupportedType, "value: %v", types.InterfaceOf(value))
 			}
 			for _, sub := range vals.Range() {
 				child, err := types.Cast[types.Map](extract(sub))
